@@ -320,6 +320,56 @@ class World:
             return x
         return json.loads(json.dumps(canon(spec, w)))
 
+    def enumerate_first_start(self, cls, specs, case_base):
+        """the very first start of a module (no stored file yet) saves its initial values: every operation of THAT save
+        fails once as a crash and once as an I/O error - afterwards the file is absent or the complete snapshot, never
+        empty or partial, and a later fault-free start works"""
+        r = self.r
+        d = os.path.join(self.root, 'first')
+
+        def clean():
+            shutil.rmtree(d, ignore_errors=True)
+            os.makedirs(d)
+            self.inj.reset()
+        clean()
+        try:
+            m = self.mk(cls, d)
+        except Exception as e:
+            r.violation('C17/startup-fails/fresh-directory', f'{type(e).__name__}: {e}'[:200], case_base)
+            return
+        nops = self.inj.n
+        full = self.disk(d)
+        if not isinstance(full, dict):
+            return          # nothing is saved by the constructor of this module
+        for mode in ('crash', 'error'):
+            for k in range(1, nops + 1):
+                clean()
+                self.inj.reset(at=k, mode=mode)
+                try:
+                    self.mk(cls, d)
+                except self.Crash:
+                    pass
+                except Exception:
+                    pass        # an I/O error at start-up may be reported: judged is what is on disk
+                r.count('first_start_faults')
+                what = self.inj.fired
+                self.inj.reset()
+                disk = self.disk(d)
+                if disk is not None and disk != full:
+                    kind = 'empty' if disk == ('CORRUPT', '') else 'partial-or-corrupt'
+                    r.violation(f'C17/not-atomic/first-start/{mode}/{kind}', f'{mode} at operation {k} ({what}) of the first save of a new module leaves '
+                                f'{str(disk)[:60]} on disk', dict(case_base, sub='first-start', op=k, opname=what))
+                    return
+                try:
+                    m2 = self.mk(cls, d)
+                    m2.saveParameters()
+                    ok = self.disk(d) == self.snapshot(m2)
+                except Exception as e:
+                    ok = False
+                if not ok:
+                    r.violation(f'C17/first-start/later-start-fails/{mode}', f'after a {mode} at operation {k} of the first save the next start does not leave a complete file', dict(case_base, sub='first-start', op=k))
+                    return
+
     def enumerate_faults(self, cls, specs, d0, old, new, name, pyvalue, case_base):
         r = self.r
         d = os.path.join(self.root, 'work')
@@ -512,6 +562,7 @@ def run_shard(shard):
             specs = w.gen_module()
             base = {'specs': specs, 'seed': [shard['seed'], shard['idx'], i]}
             w.run_module(specs, base)
+            w.enumerate_first_start(w.make_class(specs), specs, base)
             w.run_corruptions(specs, base)
             for _ in range(6):
                 w.run_history(specs, base)
